@@ -554,6 +554,22 @@ func padBoundRule(c *core.Check, r *core.Rule) {
 			}
 			n++
 			cnt := call.Call.Args[1]
+			// a lower clamp (MaxInt(0, n)) leaves the upper bound of n in place
+			if mc, ok := cnt.(*ssa.Call); ok && len(mc.Call.Args) == 2 {
+				name := ""
+				if callee := mc.Call.StaticCallee(); callee != nil {
+					name = callee.Name()
+				} else if bi, ok := mc.Call.Value.(*ssa.Builtin); ok {
+					name = bi.Name()
+				}
+				if name == "MaxInt" || name == "Max" || name == "max" {
+					if k, ok := core.ConstInt(mc.Call.Args[0]); ok && k >= 0 {
+						cnt = mc.Call.Args[1]
+					} else if k, ok := core.ConstInt(mc.Call.Args[1]); ok && k >= 0 {
+						cnt = mc.Call.Args[0]
+					}
+				}
+			}
 			bounded, how := false, "the count is neither the merge of a constant and a value tested against it, nor tested against a constant on every path to the call"
 			if phi, ok := cnt.(*ssa.Phi); ok {
 				for i, e := range phi.Edges {
